@@ -237,6 +237,7 @@ func buildPolicies(st []PolD, li *liveInst) []failsafe.Policy[int] {
 type ExecObs struct {
 	Res     int
 	Err     error
+	Start   int64
 	End     int64
 	Events  []string
 	Counts  map[string]int
@@ -245,7 +246,7 @@ type ExecObs struct {
 }
 
 func (o ExecObs) Gallina() string {
-	return fmt.Sprintf("{| x_out := %s; x_end := %d; x_events := %s; x_state := %s |}", gOutcome(o.Res, o.Err), o.End, gList(o.Events), o.State)
+	return fmt.Sprintf("{| x_out := %s; x_start := %d; x_end := %d; x_events := %s; x_state := %s |}", gOutcome(o.Res, o.Err), o.Start, o.End, gList(o.Events), o.State)
 }
 
 func instState(li *liveInst) string {
@@ -285,6 +286,7 @@ func runHistory(t *testing.T, inst InstD, reqs []ReqD) (obs []ExecObs, start int
 			}
 			log := &execLog{t0: t0, base: start, counts: map[string]int{}}
 			li.log = log
+			reqStart := log.now()
 			ctx := context.Background()
 			var cancel context.CancelFunc = func() {}
 			var timer *time.Timer
@@ -371,7 +373,7 @@ func runHistory(t *testing.T, inst InstD, reqs []ReqD) (obs []ExecObs, start int
 			}
 			cancel()
 			synctest.Wait()
-			obs = append(obs, ExecObs{Res: res, Err: err, End: end, Events: log.events, Counts: log.counts, Invoked: invoked, State: instState(li)})
+			obs = append(obs, ExecObs{Res: res, Err: err, Start: reqStart, End: end, Events: log.events, Counts: log.counts, Invoked: invoked, State: instState(li)})
 		}
 	})
 	return
